@@ -15,6 +15,15 @@ func registerMiscModels(ex *Exec) {
 	m["(*regexp.Regexp).FindStringSubmatch"] = modelFindStringSubmatch
 	m["(*regexp.Regexp).MatchString"] = modelRegexpMatchString
 	ident := func(ex *Exec, s *State, cc *ssa.CallCommon, a []Value) (Value, *Fork, error) { return a[0], nil, nil }
+	// Unicode normalisation: the identity on ASCII (all normalisation forms leave ASCII unchanged);
+	// non-ASCII input is outside the modelled fragment
+	m["(golang.org/x/text/unicode/norm.Form).String"] = func(ex *Exec, s *State, cc *ssa.CallCommon, a []Value) (Value, *Fork, error) {
+		sv := a[1].(StringV)
+		if err := ex.requireASCII(s, sv.B, "norm.Form.String"); err != nil {
+			return nil, nil, err
+		}
+		return sv, nil, nil
+	}
 	m["internal/stringslite.Clone"] = ident
 	m["strings.Clone"] = ident
 	m["strconv.cloneString"] = ident
